@@ -1,6 +1,7 @@
 """C03 small block allocator: SbaBin.tla (pages / free list / purge, every history) model-checked; the real
 allocator driven single-threaded and multi-threaded (controlled scheduler); traces validated against Sba.tla."""
 import random
+import re
 
 from vlib import build, pipeline
 
@@ -162,7 +163,9 @@ def scenario(rng):
     sc = scenario0(rng)
     # the parent's optional entry points (calloc, realloc) are left out in some executions: the allocator must not need them
     if rng.random() < 0.3:
-        sc[0] = sc[0] + " %d" % rng.choice([1, 1, 2, 3])
+        # (aws_mem_realloc's emulation for a parent without realloc zero-fills the grown part: gigabytes are not grown there)
+        huge = any(int(x) >= 1 << 30 for x in re.findall(r":(\d+)", " ".join(sc)))
+        sc[0] = sc[0] + " %d" % (2 if huge else rng.choice([1, 1, 2, 3]))
     return sc
 
 
